@@ -82,7 +82,7 @@ class Controller:
         while True:
             with self.cv:
                 # wait until every writer is at a schedule point or finished (or blocked behind a paused one)
-                ok = self.cv.wait_for(lambda: all(self.settled(i) for i in range(self.n)), timeout=3.0)
+                ok = self.cv.wait_for(lambda: all(self.settled(i) for i in range(self.n)), timeout=20.0)
                 ready = sorted(self.waiting)
                 if not ready:
                     if len(self.finished) == self.n:
@@ -103,7 +103,7 @@ class Controller:
                 self.granted = pick
                 self.cv.notify_all()
                 # wait until that writer reaches its next point / finishes
-                self.cv.wait_for(lambda: self.granted is None and self.settled(pick), timeout=3.0)
+                self.cv.wait_for(lambda: self.granted is None and self.settled(pick), timeout=20.0)
             self.steps.append({"w": pick, "kind": kind, "oid": oid, "after": self.snapshot(),
                                "done": self.finished.get(pick)})
 
